@@ -128,13 +128,14 @@ func (x *Exec) sortSort(fr *Frame, st *State, reach string, ins ssa.Instruction)
 		return false
 	}
 	tk := typeKey(mi.X.Type())
-	if tk != "freelist.txIDx" && tk != "common.Pgids" {
+	if tk != "freelist.txIDx" && tk != "common.Pgids" && tk != "common.Pages" {
 		return false
 	}
 	sl, ok := mi.X.Type().Underlying().(*types.Slice)
-	if !ok || kindOf(sl.Elem()) != KInt {
+	if !ok || (kindOf(sl.Elem()) != KInt && kindOf(sl.Elem()) != KPtr) {
 		return false
 	}
+	ordered := kindOf(sl.Elem()) == KInt // common.Pages (pointers ordered by page id): only "permutation" is modelled
 	sv, ok := x.value(fr, mi.X).(SliceV)
 	if !ok {
 		return false
@@ -152,12 +153,18 @@ func (x *Exec) sortSort(fr *Frame, st *State, reach string, ins ssa.Instruction)
 	// outside the segment: unchanged
 	x.emit(fmt.Sprintf("(assert (forall ((j Int)) (! (=> (or (< j %s) (>= j (+ %s %s))) (= (select %s j) (select %s j))) :pattern ((select %s j)))))", sv.Off, sv.Off, sv.Len, row, oldRow, row))
 	// ascending
-	x.emit(fmt.Sprintf("(assert (forall ((i Int) (j Int)) (! (=> (and (<= 0 i) (<= i j) (< j %s)) (<= (%s %s %s i) (%s %s %s j))) :pattern ((%s %s %s i) (%s %s %s j)))))", sv.Len, el, row, sv.Off, el, row, sv.Off, el, row, sv.Off, el, row, sv.Off))
+	if ordered {
+		x.emit(fmt.Sprintf("(assert (forall ((i Int) (j Int)) (! (=> (and (<= 0 i) (<= i j) (< j %s)) (<= (%s %s %s i) (%s %s %s j))) :pattern ((%s %s %s i) (%s %s %s j)))))", sv.Len, el, row, sv.Off, el, row, sv.Off, el, row, sv.Off, el, row, sv.Off))
+	}
 	// permutation: new[i] = old[perm(i)], old[j] = new[inv(j)], perm and inv are mutually inverse on the range
 	x.emit(fmt.Sprintf("(assert (forall ((i Int)) (! (=> %s (and %s (= (%s %s %s i) (%s %s %s (%s i))) (= (%s (%s i)) i))) :pattern ((%s %s %s i)) :pattern ((%s i)))))", rng("i"), rng(sx(pi, "i")), el, row, sv.Off, el, oldRow, sv.Off, pi, inv, pi, el, row, sv.Off, pi))
 	x.emit(fmt.Sprintf("(assert (forall ((j Int)) (! (=> %s (and %s (= (%s %s %s (%s j)) (%s %s %s j)) (= (%s (%s j)) j))) :pattern ((%s %s %s j)) :pattern ((%s j)))))", rng("j"), rng(sx(inv, "j")), el, row, sv.Off, inv, el, oldRow, sv.Off, pi, inv, el, oldRow, sv.Off, inv))
 	x.setHeap(st, name, arr2Sort("Int"), sx("store", h, sv.Arr, row))
-	x.trustedUsed["sort.Sort on "+tk+" = ascending permutation of the slice (A-lib; the type's Less method is under contract)"] = true
+	if ordered {
+		x.trustedUsed["sort.Sort on "+tk+" = ascending permutation of the slice (A-lib; the type's Less method is under contract)"] = true
+	} else {
+		x.trustedUsed["sort.Sort on "+tk+" = a permutation of the slice (A-lib; the order is not modelled)"] = true
+	}
 	return true
 }
 
